@@ -28,6 +28,21 @@ def _sh(t):
         return repr(t)[:80]
 
 
+def _only_var(c, x):
+    """does the condition mention the variable x and no other variable?"""
+    seen = set()
+
+    def go(t):
+        if isinstance(t, tuple):
+            if len(t) == 3 and t[0] == "v":
+                seen.add(t)
+                return
+            for y in t:
+                go(y)
+    go(c)
+    return seen == {x}
+
+
 def run(rep, tier):
     cx = Ctx(rep, "std")
     F = cx.F
@@ -142,16 +157,33 @@ def run(rep, tier):
                                 st.extend([x[1], x[2]])
                             else:
                                 conds.add(x)
-                    want_r = set()
-                    for nm, lo, hi in ((dst, 0, 16), (off, -32768, 32768), (imm, -(1 << 31), 1 << 31)):
-                        if isinstance(nm, str) and not nm.startswith("LOW32") and nm != "SIZE":
-                            x = T.V(nm, 64)
-                            want_r |= {T.cmp("sle", 64, T.K(64, lo), x), T.cmp("slt", 64, x, T.K(64, hi))}
-                    if isinstance(src_, str):
-                        want_r |= {T.cmp("slt", 64, T.V(src_, 64), T.K(64, 16))}
-                    missing = [T.show(c) for c in want_r if c not in conds]
-                    rep.ob(rc, key, not missing, "range checks on the accepting path of %s" % key,
-                           expected=sorted(T.show(c) for c in want_r), found="missing: %s" % missing if missing else "present")
+                    # decided semantically: the conjunction of the path's conditions on one operand, evaluated at the
+                    # boundaries, accepts exactly the field's range (however the test is spelled: `contains`,
+                    # two comparisons, `i16::try_from`, ...)
+                    import vmodel
+                    probs = []
+                    for nm, lo, hi, lower in ((dst, 0, 16, True), (src_, 0, 16, False), (off, -32768, 32768, True), (imm, -(1 << 31), 1 << 31, True)):
+                        if not (isinstance(nm, str) and not nm.startswith("LOW32") and nm != "SIZE"):
+                            continue
+                        x = T.V(nm, 64)
+                        mine = []
+                        for c in conds:
+                            vs = set()
+                            if isinstance(c, tuple) and c and c[0] in ("cmp", "not", "lor") and _only_var(c, x):
+                                mine.append(c)
+                        reps = {lo, lo + 1, hi - 1, hi, hi + 1, hi + 65536, (1 << 63) - 1, 0, 1}
+                        if lower:
+                            reps |= {lo - 1, lo - 65536, -(1 << 63), -1}
+                        for r_ in sorted(reps):
+                            try:
+                                acc = all(vmodel._beval(c, {x: r_ & ((1 << 64) - 1)}, {}) for c in mine)
+                            except Exception as e:
+                                probs.append("%s: a condition is not evaluable (%s)" % (nm, str(e)[:40]))
+                                break
+                            if acc != (lo <= r_ < hi) and not (not lower and r_ < lo):
+                                probs.append("%s = %d is %s" % (nm, r_, "accepted" if acc else "refused"))
+                    rep.ob(rc, key, not probs, "range checks on the accepting path of %s" % key,
+                           expected="dst, src in 0..16 (src: < 16), off in -2^15..2^15, imm in -2^31..2^31", found=sorted(set(probs))[:4] or "exactly the field ranges")
             rep.ob(rb, key, good, "%s with operand shape %s" % (itype, shape), expected="Ok with %s" % (want,), found=found, sample=(key == "LoadReg/RM"))
     rep.info("accepted_shapes", n_ok)
 
@@ -192,11 +224,24 @@ def run(rep, tier):
     cast = clo("asm_parser::integer::{closure#1}::{closure#0}", T.V("m", 64))
     rep.ob(rg, "hex-cast", len(cast) == 1 and cast[0][0] == T.V("m", 64), "the 64-bit magnitude is reinterpreted as i64 (so 0x8000000000000000.. denote negative values, needed for lddw)",
            expected="m as i64", found=[_sh(v) for v, _ in cast])
-    def parse_ty(path):
+    def parse_ty(path, depth=0, seen=None):
+        """str::parse calls of the closure, following the local functions / closures it calls (a helper may do the parsing)"""
         out = []
+        seen = seen if seen is not None else set()
+        if path in seen or depth > 3:
+            return out
+        seen.add(path)
         for n in calls_of(path):
-            if (callee_path(n) or "").endswith("<impl str>::parse"):
+            cp = callee_path(n) or ""
+            if cp.endswith("<impl str>::parse"):
                 out.append(((n.get("callee") or {}).get("generics") or n.get("generics") or [n.get("ty")])[0])
+            elif cp in F.fns and cp.startswith("asm_parser::"):
+                out.extend(parse_ty(cp, depth + 1, seen))
+        fnp = F.fns.get(path)
+        if fnp and fnp.get("thir"):
+            for x in walk(fnp["thir"]["body"]):
+                if x.get("k") == "closure" and x.get("path"):
+                    out.extend(parse_ty(x["path"], depth + 1, seen))
         return out
     dec = parse_ty("asm_parser::integer::{closure#2}")
     rep.ob(rg, "decimal", len(dec) == 1 and "i64" in str(dec[0]), "decimal branch parses an i64 with str::parse (radix 10)", expected="str::parse::<i64>", found=dec)
@@ -222,6 +267,33 @@ def run(rep, tier):
            "`%s` followed by `%s ...`: after the operand-less instruction the parser tries `operand`, `register` consumes the `r` and fails on the next letter" % ((noop or ["?"])[0], (conflict or ["?"])[0]),
            expected="attempt(register()) in operand (or in register itself), or no mnemonic starting with `r`, or no operand-less mnemonic",
            found=foundh)
+
+    # R13.s: a program is assembled instruction by instruction, in order, nothing skipped, repeated or reordered
+    rs = rep.rule("R13.s", "a sequence of instructions assembles to the concatenation, in source order, of what each instruction assembles to alone", floor=1)
+    names = sorted(ref)
+    pick = {}
+    for nm in names:
+        it = ref[nm][0]
+        pick.setdefault(it, nm)
+    seq = []
+    for j, (it, shape) in enumerate((("NoOperand", ()), ("LoadImm", ("R", "I")), ("AluBinary", ("R", "R")), ("NoOperand", ()))):
+        if it in pick:
+            seq.append((pick[it], tuple(asmmodel.operand(k, 10 * j + i) for i, k in enumerate(shape))))
+    evs = symex.Evaluator(F)
+    evs.unroll = True
+    singles = []
+    for nm, ops in seq:
+        r1 = [x for x in (asmmodel.resolve(F, evs, nm, ops=ops) or []) if x["res"] == "Ok"]
+        singles.append(r1[0]["insns"] if len(r1) == 1 else None)
+    whole = [x for x in (asmmodel.resolve_seq(F, evs, seq) or []) if x["res"] == "Ok"]
+    oks = len(seq) == 4 and None not in singles and len(whole) == 1
+    founds = "%d instructions, %d Ok paths" % (len(seq), len(whole))
+    if oks:
+        want = [i for sgl in singles for i in sgl]
+        got = whole[0]["insns"]
+        oks = len(got) == len(want) and all(asmmodel.same_insn(g, w) for g, w in zip(got, want))
+        founds = "%d slots emitted, %d expected%s" % (len(got), len(want), "" if oks else "; order or content differs")
+    rep.ob(rs, "sequence", oks, "`%s` assembled as one program" % "; ".join(nm for nm, _ in seq), expected="the four encodings in order (the wide load contributing two slots)", found=founds)
 
     rf = rep.rule("R13.f", "assemble produces no bytes on error", floor=1)
     evo = symex.Evaluator(F, opaque_calls=lambda p: p.startswith("asm_parser::") or p in ai)
